@@ -146,8 +146,8 @@ theorem mutation_in_iteration_fails (j : Nat) (body : Prog μ) (n : Nat) (c : σ
   have h0 : 0 < size c := by omega
   refine ⟨?_, fun i m => ?_, fun m => ?_⟩
   · simp [runProg, hj, runProg_guarded, hb]
-  · simp [runProg, hj, runProg_guarded, Prog.attempts]
-  · simp [runProg, hj, runProg_guarded, Prog.attempts, h0]
+  · simp [runProg, hj]
+  · simp [runProg, hj, h0]
 
 /-- Once the iteration has ended (normally, or because the step with the body was never reached) the
     guard is gone: a mutation after it is the plain mutation; and with no iteration active at all a
@@ -191,8 +191,8 @@ theorem iter_op_spec (c : Cont) (outer nest j : Nat) (m : Op) (hm : (applyMut c 
     by_cases hj : j < size c
     · have h0 : 0 < size c := by omega
       by_cases h3 : nest = 3
-      · simp [iterProg, h3, runProg, hj, runProg_guarded, Prog.attempts, h0, Except.map]
-      · simp [iterProg, h3, runProg, hj, runProg_guarded, Prog.attempts, hin, Except.map]
+      · simp [iterProg, h3, runProg, hj, h0, Except.map]
+      · simp [iterProg, h3, runProg, hj, runProg_guarded, hin, Except.map]
     · by_cases h3 : nest = 3
       · simp [iterProg, h3, runProg, hj, Except.map, iterSteps]
       · simp [iterProg, h3, runProg, hj, Except.map, iterSteps]
